@@ -433,7 +433,13 @@ def g6(ctx):
     inner = [c for c in ins if strip_role(b.role_of_operand(c.args[2]))[0] == "call" and strip_role(b.role_of_operand(c.args[2]))[1] == "compose"]
     ctx.floor("orbit-table extensions in build_ot", len(inner), 1)
     for c in inner:
-        C.check_only_allowed_skips(ctx, b, c.bb, [("false", lambda t, cond: t.startswith("contains_key("))], "build_ot", "extending the orbit table")
+        def _grew(t, cond):
+            # the fixpoint loop written with a flag: `while grew { ..; grew = ot.len() != len_before }`
+            r_ = cond[1] if len(cond) > 1 else None
+            ms = r_[1] if isinstance(r_, tuple) and r_[0] == "phi" else [r_]
+            return any(isinstance(x, tuple) and x[0] == "bin" and x[1] in ("Ne", "Eq", "Gt", "Lt") and role_mentions_call(x[2], "len") and role_mentions_call(x[3], "len") for x in ms) \
+                and all((isinstance(x, tuple) and x[0] == "const") or (isinstance(x, tuple) and x[0] == "bin") for x in ms)
+        C.check_only_allowed_skips(ctx, b, c.bb, [("false", lambda t, cond: t.startswith("contains_key(")), ("true", _grew), ("false", _grew)], "build_ot", "extending the orbit table")
     ls = [l for l in C.iterator_loops(b)]
     ctx.check(len(ls) >= 2 and all(C.loop_exhaustive(b, l) for l in ls), "build-ot-loops", "build_ot ranges over all generators and all current orbit entries", "a loop of build_ot can stop early", where_of(b))
     # fixpoint: the outer loop ends only when a round added nothing
@@ -441,8 +447,10 @@ def g6(ctx):
     for sb in b.switch_blocks():
         t = b.blocks[sb]["term"]
         r = b.role_of_operand(t["discr"])
-        if r[0] == "bin" and r[1] in ("Eq", "Ne") and role_mentions_call(r[2], "len") and role_mentions_call(r[3], "len"):
-            okfix = True
+        ms = r[1] if r[0] == "phi" else [r]
+        for x in ms:
+            if isinstance(x, tuple) and x[0] == "bin" and x[1] in ("Eq", "Ne", "Gt", "Lt") and role_mentions_call(x[2], "len") and role_mentions_call(x[3], "len"):
+                okfix = True
     ctx.check(okfix, "build-ot-fixpoint", "build_ot repeats until the table stops growing (len before == len after)", "build_ot no longer iterates to a fixpoint", where_of(b))
     # all_perms: the product left x right is complete
     b = fn(crate, "all_perms", GRP)
